@@ -1457,8 +1457,9 @@ func (self *BinaryServerProtocol) ProcessCommad(command protocol.ICommand) error
 				self.stream.protocol = self
 			}
 			self.totalCommandCount += serverProtocol.totalCommandCount
-			serverProtocol.UnInitLockCommand()
-			serverProtocol.closed = true
+			serverProtocol.totalCommandCount = 0
+			serverProtocol.stream = nil
+			_ = serverProtocol.Close()
 			return err
 
 		case protocol.COMMAND_PING:
